@@ -165,3 +165,48 @@ M("C16", "gram X X^H", WH, "C = X.conj().T @ X / nc", "C = X @ X.conj().T / nc",
 B("C16", "hoist Tinv adjoint", WH, "            VS = self.Tinv.conj().T\n", "            Tinv = self.Tinv\n            VS = Tinv.conj().T\n")
 B("C16", "exponent 0.5*(alpha-1)", WH, "power = (self.alpha - 1) / 2", "power = 0.5 * (self.alpha - 1)")
 B("C16", "transpose via method", WH, "VS = self.T.conj().T", "VS = self.T.conj().transpose()")
+
+# ---------------------------------------------------------------- C11
+ER = "xeofs/single/eof_rotator.py"
+CR = "xeofs/cross/cpcca_rotator.py"
+M("C11", "fit rotates scores with R", ER, '        RinvT = RinvT.rename({"mode_n": "mode"})\n        scores = xr.dot(scores, RinvT, dims="mode_m")', '        RinvT = rot_matrix.rename({"mode_n": "mode"})\n        scores = xr.dot(scores, RinvT, dims="mode_m")', "PAIR.scores")
+M("C11", "transform rotates with R", ER, '        RinvT = self._compute_rot_mat_inv_trans(R, input_dims=("mode_m", "mode_n"))', "        RinvT = R", "PAIR.scores")
+M("C11", "cross transform rotates with R", CR, '        RinvT = self._compute_rot_mat_inv_trans(\n            rot_matrix, input_dims=("mode_m", "mode_n")\n        )\n        RinvT = RinvT.rename({"mode_n": "mode"})\n\n        scaling', '        RinvT = rot_matrix\n        RinvT = RinvT.rename({"mode_n": "mode"})\n\n        scaling', "PAIR.scores")
+M("C11", "helper without conj", ER, "rotation_matrix = rotation_matrix.conj().transpose(*input_dims)", "rotation_matrix = rotation_matrix.transpose(*input_dims)", "PAIR.helper")
+M("C11", "helper threshold power>2", CR, '        if self._params["power"] > 1:', '        if self._params["power"] > 2:', "PAIR.helper")
+M("C11", "scores excluded from sorting", ER, 'if "mode" in self.data[key].dims and key != "idx_modes_sorted":', 'if "mode" in self.data[key].dims and key != "idx_modes_sorted" and key != "scores":', "SORT.cover")
+M("C11", "ascending order", ER, 'idx_modes_sorted = argsort_dask(expvar, "mode")[::-1]', 'idx_modes_sorted = argsort_dask(expvar, "mode")', "SORT.key.descending")
+M("C11", "argsort of other quantity", CR, 'idx_modes_sorted = argsort_dask(squared_covariance, "mode")[::-1]', 'idx_modes_sorted = argsort_dask(norm1_rot, "mode")[::-1]', "SORT.key.quantity")
+M("C11", "sorted reset dropped (rotator)", ER, "        self.feature_name = model.feature_name\n        self.sorted = False\n", "        self.feature_name = model.feature_name\n", "SORT.state.reset")
+M("C11", "sorted never set", CR, "                        .assign_coords(mode=self.data[key].mode)\n                    )\n        self.sorted = True", "                        .assign_coords(mode=self.data[key].mode)\n                    )", "SORT.state.set")
+M("C11", "sort loop not guarded", ER, "        if not self.sorted:\n            for key in self.data.keys():\n                if \"mode\" in self.data[key].dims and key != \"idx_modes_sorted\":\n                    self.data[key] = (\n                        self.data[key]\n                        .isel(mode=self.data[\"idx_modes_sorted\"].values)\n                        .assign_coords(mode=self.data[key].mode)\n                    )",
+  "        if True:\n            for key in self.data.keys():\n                if \"mode\" in self.data[key].dims and key != \"idx_modes_sorted\":\n                    self.data[key] = (\n                        self.data[key]\n                        .isel(mode=self.data[\"idx_modes_sorted\"].values)\n                        .assign_coords(mode=self.data[key].mode)\n                    )", "SORT.state.idempotent")
+M("C11", "transform always re-sorts", ER, "        if self.sorted:\n            projections = projections.isel(", "        if True:\n            projections = projections.isel(", "SORT.state.transform")
+M("C11", "modes_sign not on scores", ER, "        rot_components = rot_components * modes_sign\n        scores = scores * modes_sign\n", "        rot_components = rot_components * modes_sign\n", "SIGN.group")
+M("C11", "cross scores2 without sign", CR, "        scores2_rot = scores2_rot * modes_sign\n", "", "SIGN.group")
+M("C11", "transform without modes_sign", ER, '        projections = projections * self.data["modes_sign"]\n', "", "SIGN.group.transform")
+M("C11", "pseudo norms with n", ER, "norms = (expvar * (n_samples - 1)) ** 0.5", "norms = (expvar * n_samples) ** 0.5", "NORM.pseudo")
+M("C11", "sort outside post_compute", ER, "        # Assign analysis-relevant meta data\n        self.data.set_attrs(self.attrs)\n\n        return self\n\n    def _post_compute(self):", "        # Assign analysis-relevant meta data\n        self.data.set_attrs(self.attrs)\n        self._sort_by_variance()\n\n        return self\n\n    def _post_compute(self):", "SORT.state.callers")
+B("C11", "hoist helper result", ER, '        RinvT = self._compute_rot_mat_inv_trans(R, input_dims=("mode_m", "mode_n"))', '        dims_R = ("mode_m", "mode_n")\n        RinvT = self._compute_rot_mat_inv_trans(R, input_dims=dims_R)')
+B("C11", "sign applied in other order", ER, "        rot_components = rot_components * modes_sign\n        scores = scores * modes_sign\n", "        scores = modes_sign * scores\n        rot_components = modes_sign * rot_components\n")
+B("C11", "sorted guard via early return", ER, "        if not self.sorted:\n            for key in self.data.keys():", "        if self.sorted:\n            return\n        if True:\n            for key in self.data.keys():")
+
+# ---------------------------------------------------------------- C18
+PP = "xeofs/single/pop.py"
+M("C18", "transform projects linearly", PP, "        Z = xr.apply_ufunc(\n            self._np_compute_pop_coefficients,\n            X,\n            P,", "        Z = xr.apply_ufunc(\n            lambda a, b: a @ b,\n            X,\n            P,", "COEF", accept_error=True)
+M("C18", "transform without pca.transform", PP, "        P = self.pca.transform_components(P)\n        X = self.pca.transform(X)\n", "        P = self.pca.transform_components(P)\n", "COEF.shared.data_space")
+M("C18", "patterns not mapped to PC space", PP, "        P = self.pca.transform_components(P)\n        X = self.pca.transform(X)\n", "        X = self.pca.transform(X)\n", "COEF.shared.pattern_space")
+M("C18", "log of complex lambda", PP, "tau = -1 / np.log(abs(lbda))", "tau = -1 / np.log(lbda)", "REAL")
+M("C18", "damping sign", PP, "tau = -1 / np.log(abs(lbda))", "tau = 1 / np.log(abs(lbda))", "REAL.times.damping_times")
+M("C18", "period pi", PP, "T = 2 * np.pi / np.angle(lbda)", "T = np.pi / np.angle(lbda)", "REAL.times.periods")
+M("C18", "periods and damping swapped in store", PP, '        self.data.add(tau, "damping_times")\n        self.data.add(T, "periods")', '        self.data.add(T, "damping_times")\n        self.data.add(tau, "periods")', "REAL.store")
+M("C18", "ascending order", PP, 'idx_modes_sorted = argsort_dask(norms, "mode")[::-1]', 'idx_modes_sorted = argsort_dask(norms, "mode")', "SORT.key.descending")
+M("C18", "sorted reset removed", PP, "        # A new fit yields unsorted modes\n        self.sorted = False\n", "", "SORT.state.reset")
+M("C18", "sort by eigenvalue modulus", PP, 'idx_modes_sorted = argsort_dask(norms, "mode")[::-1]', 'idx_modes_sorted = argsort_dask(abs(lbda), "mode")[::-1]', "SORT.key.quantity")
+M("C18", "importance is variance", PP, "norms = (var_Z) ** (0.5)", "norms = var_Z", "SORT.importance")
+M("C18", "feedback without conj", PP, "A = X[1:].conj().T @ X[:-1] @ np.linalg.inv(X[:-1].conj().T @ X[:-1])", "A = X[1:].T @ X[:-1] @ np.linalg.inv(X[:-1].conj().T @ X[:-1])", "FEEDBACK.conj")
+M("C18", "feedback lag-0 both", PP, "A = X[1:].conj().T @ X[:-1] @ np.linalg.inv(X[:-1].conj().T @ X[:-1])", "A = X[:-1].conj().T @ X[:-1] @ np.linalg.inv(X[:-1].conj().T @ X[:-1])", "FEEDBACK.form")
+M("C18", "eigenvalues excluded from sorting", PP, 'if "mode" in self.data[key].dims and key != "idx_modes_sorted":', 'if "mode" in self.data[key].dims and key not in ("idx_modes_sorted",) and key != "eigenvalues":', "SORT.cover")
+B("C18", "std directly", PP, "        var_Z = Z.var(sample_name)\n        norms = (var_Z) ** (0.5)", "        norms = Z.std(sample_name)\n        var_Z = norms**2")
+B("C18", "np.abs modulus", PP, "tau = -1 / np.log(abs(lbda))", "tau = -1 / np.log(np.abs(lbda))")
+B("C18", "feedback hoisted", PP, "        A = X[1:].conj().T @ X[:-1] @ np.linalg.inv(X[:-1].conj().T @ X[:-1])", "        A = X[1:].conj().T @ X[:-1] @ np.linalg.inv(X[:-1].conj().T @ X[:-1])\n        n_pc = A.shape[0]")
